@@ -35,6 +35,9 @@ struct Msg {
     fields: Vec<Field>,
     /// declared type url (reference crates only)
     type_url: String,
+    /// first word of the struct's doc comment (protoc copies the .proto comment, which by Cosmos
+    /// convention starts with the message's protobuf name)
+    doc_name: String,
 }
 
 #[derive(Serialize, Clone, Debug, Default)]
@@ -59,6 +62,8 @@ struct Schema {
     dead_files: Vec<String>,
     /// (rust path of the type, declared TYPE_URL)
     type_urls: Vec<(String, String)>,
+    /// gRPC method paths found in the generated clients / servers: (package, service, method)
+    rpc_methods: Vec<(String, String, String)>,
 }
 
 fn lit_str(e: &syn::Expr) -> Option<String> {
@@ -216,7 +221,15 @@ fn walk_items(ctx: &mut Ctx, items: &[syn::Item], modpath: &[String], proto_scop
                     .unwrap_or_default();
                 let mut path = modpath.to_vec();
                 path.push(name);
-                ctx.schema.messages.push(Msg { path: path.join("::"), full_name: full, file: ctx.file.clone(), included: ctx.included, fields, type_url });
+                let doc_name = s
+                    .attrs
+                    .iter()
+                    .filter(|a| a.path().is_ident("doc"))
+                    .filter_map(|a| if let syn::Meta::NameValue(nv) = &a.meta { lit_str(&nv.value) } else { None })
+                    .find(|t| !t.trim().is_empty())
+                    .map(|t| t.split_whitespace().next().unwrap_or("").trim_matches(|c: char| !c.is_ascii_alphanumeric() && c != '_').to_string())
+                    .unwrap_or_default();
+                ctx.schema.messages.push(Msg { path: path.join("::"), full_name: full, file: ctx.file.clone(), included: ctx.included, fields, type_url, doc_name });
             }
             syn::Item::Enum(e) if derives(&e.attrs, "Enumeration") => {
                 let mut path = modpath.to_vec();
@@ -369,6 +382,28 @@ fn main() {
         };
         let src = std::fs::read_to_string(&p).unwrap();
         let ast = syn::parse_file(&src).unwrap_or_else(|e| panic!("parse {file}: {e}"));
+        // gRPC paths "/<package>.<Service>/<Method>" written by the tonic generator
+        let mut rest = src.as_str();
+        while let Some(i) = rest.find("\"/") {
+            let tail = &rest[i + 2..];
+            if let Some(j) = tail.find('"') {
+                let lit = &tail[..j];
+                if let Some((svc, method)) = lit.split_once('/') {
+                    if let Some((pkg, service)) = svc.rsplit_once('.') {
+                        let okc = |s: &str| !s.is_empty() && s.chars().all(|c| c.is_ascii_alphanumeric() || c == '_' || c == '.');
+                        if okc(pkg) && okc(service) && okc(method) && !method.contains('.') {
+                            let t = (pkg.to_string(), service.to_string(), method.to_string());
+                            if !schema.rpc_methods.contains(&t) {
+                                schema.rpc_methods.push(t);
+                            }
+                        }
+                    }
+                }
+                rest = &tail[j + 1..];
+            } else {
+                break;
+            }
+        }
         let mut ctx = Ctx { schema: &mut schema, file: file.clone(), included, package };
         walk_items(&mut ctx, &ast.items, &modpath, &[]);
     }
